@@ -5,7 +5,7 @@ import json
 import vlib
 
 KEYS = ["a", "b", "c", "d"]
-STRS = ["", "a", "b", "cat", "dog", "a b", "xé", "zz"]
+STRS = ["", "a", "b", "cat", "dog", "a b", "xé", "zz", "c*", "*", "?og"]   # [1:5] are used as literals; pattern-like ones only occur in documents
 INTS = [0, 1, 2, 3, -1, -2, 5, 10, 7, 100, 9007199254740992]   # in documents: exactly representable in binary64 (JSON reader goes through float64: C06)
 LIT_INTS = INTS + [9007199254740993, 9007199254740991]          # in expression literals: compared exactly as int64
 
